@@ -1,4 +1,5 @@
 import ObiVerif.Model.Tag
+import ObiVerif.Model.TagSel
 import ObiVerif.Driver.Util
 /-!
 line protocol for C15 (see `harness/c15.go`)
@@ -6,8 +7,21 @@ line protocol for C15 (see `harness/c15.go`)
 ```
 cw  A B                          -> n
 fc1|fc2 Q R1,R2,… | o1,o2,… l1:a1,l2:a2,…                     -> maxe num/den bestmatch idx,idx,…  | panic
-ix  s R1,… T1,… id:parent,… | o… l:a…                          -> d:taxid d:taxid …                 | empty
+ix  s R1,… T1,… id:parent,… | o… l:a…                          -> d:taxid@name@rank …              | empty
 id1|id2 Q R1,… T1,… id:parent,… | o… l:a… | o… l:a… | …        -> taxid bestmatch count
+sl1|sl2 Q R1,… T1,… id:parent,… I1;I2;… | o… l:a…              -> taxid bestmatch count | panic | hang | fatal
+id3 Q R1,… T1,… id:parent,… H C1,… | C i,i,… | row | row … | F f i,i,… | row | row … | …
+                                                                -> taxid bestmatch weight exact|lcs
+```
+`id3` = `obitag2.CLIAssignTaxonomy` + `Identify` : `H` = one `0/1` per reference (`reffamidx_clusterhead`), `Ck` = `Count()`;
+section `C` lists the cluster heads (indices of references), followed by the row of the query against them and one row
+per cluster head against them; each section `F f members` is followed by the same rows for the family of taxid `f`.
+```
+```
+`Ij` = the index given to reference j: `k=hex(text),k=hex(text),…`, `_` = empty map, `-` = nil (sl2: `log.Fatalf`).
+The names and ranks of the taxa are those the harness gives: `nameOf`, `rankOf` below.  `id*` run the verbatim
+selection loop on the TEXT of the indices built by the model of `IndexSequence` (`identifyText`).
+```
 qg A maxlen / qgn A k                                           -> count minslack sumslack
 ```
 `-` = empty sequence, `_` = empty list.  After ` | ` : the candidate order of the code and the unbounded
@@ -69,10 +83,17 @@ def showBad : Tax.Bad → String
 def mkTaxo (nodes : List (Nat × Nat)) : Tax.Taxo :=
   { ids := nodes.map (·.1), node := fun k => (nodes.lookup k).map (fun p => ⟨p, ""⟩), alias := fun _ => none }
 
-def showIndex (idx : List (Nat × Nat)) : String :=
-  if idx.isEmpty then "empty" else joinSp (idx.reverse.map fun e => s!"{e.1}:{e.2}")
+/-- scientific name the harness gives to taxon `t` (some contain `@`) -/
+def nameOf (t : Nat) : Text := (if t % 5 = 0 then s!"sp@{t}" else s!"taxon {t}").toList
 
-def variantOf (op : String) : Variant := if op = "fc2" ∨ op = "id2" then .tag2 else .tag1
+/-- rank the harness gives to taxon `t` -/
+def rankOf (t : Nat) : Text := (if t % 3 = 0 then "family" else "no rank").toList
+
+def showIndex (idx : List (Nat × Nat)) : String :=
+  if idx.isEmpty then "empty" else
+  joinSp ((textIndex nameOf rankOf idx).reverse.map fun e => s!"{e.1}:{String.ofList e.2}")
+
+def variantOf (op : String) : Variant := if op = "fc2" ∨ op = "id2" ∨ op = "sl2" then .tag2 else .tag1
 
 def runFC (op q rs sec : String) : String :=
   match unhex q, listOf unhex rs with
@@ -112,10 +133,38 @@ def runID (op q rs ts tx : String) (secs : List String) : String :=
           match rows[b]? with
           | some (csb, ob) => indexSequence t fuel taxids b (refs.getD b []).length (getCand csb) ob
           | none => .error .panic
-        match identify t fuel (findClosests (variantOf op) q.length (getCand cs) o) index with
+        let indexT := fun b => (index b).map (textIndex nameOf rankOf)
+        match identifyText t fuel (findClosests (variantOf op) q.length (getCand cs) o) indexT with
         | .bad e => showBad e
         | .ok z m n => s!"{z} {m} {n}"
   | _, _, _, _ => "bad-op"
+
+/-- `k=hex,k=hex,…` | `_` | `-` -/
+def parseGivenIndex (s : String) : Option (Tax.Res (List (Nat × Text))) :=
+  if s = "-" then some (.error .fatal) else
+  if s = "_" then some (.ok []) else
+  ((s.splitOn ",").mapM fun (kv : String) =>
+    match kv.splitOn "=" with
+    | [k, v] => do
+      let k ← String.toNat? k
+      let v ← unhex v
+      pure (k, v.map fun (b : UInt8) => Char.ofNat b.toNat)      -- ASCII text
+    | _ => none).map Except.ok
+
+def runSL (op q rs ts tx ixs sec : String) : String :=
+  match unhex q, listOf unhex rs, listOf String.toNat? ts, listOf pairOf tx, (ixs.splitOn ";").mapM parseGivenIndex with
+  | some q, some refs, some taxids, some nodes, some given =>
+    if taxids.length ≠ refs.length ∨ given.length ≠ refs.length then "bad-op" else
+    match parseRow q refs sec with
+    | none => "bad-data"
+    | some (cs, o) =>
+      let t := mkTaxo nodes
+      let fuel := nodes.length + 1
+      let index := fun b => (given[b]?).getD (.error .panic)
+      match identifyText t fuel (findClosests (variantOf op) q.length (getCand cs) o) index with
+      | .bad e => showBad e
+      | .ok z m n => s!"{z} {m} {n}"
+  | _, _, _, _, _ => "bad-op"
 
 /-! q-gram slack over whole neighbourhoods -/
 
@@ -149,6 +198,70 @@ def summarize (a : Bytes) (bs : List Bytes) : String :=
     (acc.1 + 1, min acc.2.1 s, acc.2.2 + s)) (0, (1073741824 : Int), 0)
   s!"{r.1} {r.2.1} {r.2.2}"
 
+def mkTaxoR (nodes : List (Nat × Nat)) : Tax.Taxo :=
+  { ids := nodes.map (·.1), node := fun k => (nodes.lookup k).map (fun p => ⟨p, String.ofList (rankOf k)⟩),
+    alias := fun _ => none }
+
+/-- a block `members | row(q) | row(member 0) | …` : the answer of `FindClosests` on the members and their indices -/
+def parseBlock (q : Bytes) (refs : List Bytes) (taxids : List Nat) (t : Tax.Taxo) (fuel : Nat) (members : List Nat)
+    (rows : List String) : Option (FCOut × (Nat → Tax.Res (List (Nat × Text)))) := do
+  let mrefs := members.map fun i => refs.getD i []
+  let mtax := members.map fun i => taxids.getD i 0
+  if rows.length ≠ members.length + 1 then none else
+  let (cs, o) ← parseRow q mrefs (rows.headD "")
+  let idxRows ← ((List.range members.length).zip (rows.drop 1)).mapM fun (j, sec) => parseRow (mrefs.getD j []) mrefs sec
+  let index := fun b =>
+    match idxRows[b]? with
+    | some (csb, ob) => (indexSequence t fuel mtax b (mrefs.getD b []).length (getCand csb) ob).map (textIndex nameOf rankOf)
+    | none => .error .panic
+  pure (findClosests .tag2 q.length (getCand cs) o, index)
+
+/-- split the sections following the head into blocks introduced by `C …` / `F f …` -/
+def splitBlocks : List String → List (List String × List String) → Option (List (List String × List String))
+  | [], acc => some acc.reverse
+  | sec :: rest, acc =>
+    match words sec with
+    | "C" :: hd => splitBlocks rest ((("C" :: hd), []) :: acc)
+    | "F" :: hd => splitBlocks rest ((("F" :: hd), []) :: acc)
+    | _ => match acc with
+      | (hd, rows) :: acc' => splitBlocks rest ((hd, rows ++ [sec]) :: acc')
+      | [] => none
+
+def runID3 (q rs ts tx h cnt : String) (secs : List String) : String :=
+  match unhex q, listOf unhex rs, listOf String.toNat? ts, listOf pairOf tx, listOf String.toNat? cnt, splitBlocks secs [] with
+  | some q, some refs, some taxids, some nodes, some counts, some blocks =>
+    if taxids.length ≠ refs.length ∨ counts.length ≠ refs.length ∨ h.length ≠ refs.length then "bad-op" else
+    let t := mkTaxoR nodes
+    let fuel := nodes.length + 1
+    let same := fun j => decide (refs[j]? = some q)
+    let exact := exactEntry t fuel same taxids counts
+    let parsed := blocks.mapM fun (hd, rows) =>
+      match hd with
+      | ["C", ms] => do
+        let ms ← listOf String.toNat? ms
+        let b ← parseBlock q refs taxids t fuel ms rows
+        pure ((none : Option Nat), ms, b)
+      | ["F", f, ms] => do
+        let f ← String.toNat? f
+        let ms ← listOf String.toNat? ms
+        let b ← parseBlock q refs taxids t fuel ms rows
+        pure (some f, ms, b)
+      | _ => none
+    match parsed with
+    | none => "bad-data"
+    | some bl =>
+      match bl.find? (fun x => x.1.isNone) with
+      | none => "bad-data"
+      | some (_, msC, (fcC, indexC)) =>
+        let fam := fun f => (bl.find? (fun x => x.1 = some f)).map fun x => x.2.2
+        let membersOf := fun f => ((bl.find? (fun x => x.1 = some f)).map fun x => x.2.1).getD []
+        match identify2 (selectText t) t fuel exact fcC indexC fam with
+        | .bad e => showBad e
+        | .ok z bm w .exact => s!"{z} {bm} {w} exact"
+        | .ok z bm w .clusters => s!"{z} {msC.getD bm 0} {w} lcs"
+        | .ok z bm w (.family f) => s!"{z} {(membersOf f).getD bm 0} {w} lcs"
+  | _, _, _, _, _, _ => "bad-op"
+
 def run (line : String) : String :=
   match line.splitOn " | " with
   | [] => "bad-op"
@@ -163,6 +276,9 @@ def run (line : String) : String :=
     | ["ix", s, rs, ts, tx], [sec] => runIX s rs ts tx sec
     | ["id1", q, rs, ts, tx], secs => runID "id1" q rs ts tx secs
     | ["id2", q, rs, ts, tx], secs => runID "id2" q rs ts tx secs
+    | ["sl1", q, rs, ts, tx, ixs], [sec] => runSL "sl1" q rs ts tx ixs sec
+    | ["sl2", q, rs, ts, tx, ixs], [sec] => runSL "sl2" q rs ts tx ixs sec
+    | ["id3", q, rs, ts, tx, h, cnt], secs => runID3 q rs ts tx h cnt secs
     | ["qg", a, n], [] =>
       match unhex a, n.toNat? with
       | some a, some n =>
